@@ -176,6 +176,12 @@ func execOp(line string) string {
 		return execUDFWrite(t[1:])
 	case "live":
 		return execLive(t[1], t[2])
+	case "jsoncover":
+		return "-"
+	case "jsoneval":
+		return execJSONEval(t[1], un(t[2]))
+	case "jsontask":
+		return execJSONTask(un(t[1]))
 	case "pbatch":
 		return execPBatch(t[2:])
 	case "http":
@@ -1018,4 +1024,146 @@ func execPBatch(toks []string) string {
 		leak = 0
 	}
 	return strings.Join(out, " ") + " " + strconv.Itoa(leak)
+}
+
+// ---------------------------------------------------------------------------------------------
+// JSON documents are not only decoded: what DECODES is formatted, compiled and evaluated.
+// `jsoneval lambda|program <doc>` → five letters (o ok, e error, p panic, - not reached):
+//   decode, ast.Format, stateful.NewExpression, EvalBool, Eval   (program: decode, Format, NewTask of the text)
+
+func step1(f func() error) (c byte) {
+	defer func() {
+		if r := recover(); r != nil {
+			c = 'p'
+		}
+	}()
+	if err := f(); err != nil {
+		return 'e'
+	}
+	return 'o'
+}
+
+func evalScope() *stateful.Scope {
+	sc := stateful.NewScope()
+	sc.Set("host", "a")
+	sc.Set("s", "abc")
+	sc.Set("v", int64(1))
+	sc.Set("f", 1.5)
+	sc.Set("b", true)
+	sc.Set("d", time.Second)
+	return sc
+}
+
+func execJSONEval(kind, doc string) string {
+	res := []byte("-----")
+	switch kind {
+	case "lambda":
+		l := &ast.LambdaNode{}
+		res[0] = step1(func() error { return json.Unmarshal([]byte(doc), l) })
+		if res[0] != 'o' {
+			break
+		}
+		res[1] = step1(func() error { _ = ast.Format(l); return nil })
+		var ex stateful.Expression
+		res[2] = step1(func() error {
+			var err error
+			ex, err = stateful.NewExpression(l.Expression)
+			return err
+		})
+		if res[2] != 'o' {
+			break
+		}
+		res[3] = step1(func() error { _, err := ex.EvalBool(evalScope()); return err })
+		res[4] = step1(func() error { _, err := ex.Eval(evalScope()); return err })
+	case "program":
+		n := &ast.ProgramNode{}
+		res[0] = step1(func() error { return json.Unmarshal([]byte(doc), n) })
+		if res[0] != 'o' {
+			break
+		}
+		var text string
+		res[1] = step1(func() error { text = ast.Format(n); return nil })
+		if res[1] != 'o' {
+			break
+		}
+		sharedTM()
+		res[2] = step1(func() error { _, err := sharedTM().TM.NewTask("t", text, kapacitor.StreamTask, dbrps, 0, nil); return err })
+	default:
+		return "badop"
+	}
+	return string(res)
+}
+
+// `jsontask <pipeline JSON>`: Pipeline.Unmarshal; what decodes becomes a running task next to a bystander,
+// is fed 5 points and stopped. Observation: `<decode o|e|p> <start o|e|p|-> <task error 0|1> <bystander seen>/<sent>`.
+func execJSONTask(doc string) string {
+	p := &pipeline.Pipeline{}
+	d := step1(func() error { return p.Unmarshal([]byte(doc)) })
+	if d != 'o' {
+		return string(d) + " - 0 0/0"
+	}
+	t := sharedTM()
+	liveSeq++
+	id := fmt.Sprintf("jt%d", liveSeq)
+	oid := fmt.Sprintf("jo%d", liveSeq)
+	other, err := t.StartStream(oid, "stream|from().measurement('m')@sink()", dbrps)
+	if err != nil {
+		return "o othererr 0 0/0"
+	}
+	var et *kapacitor.ExecutingTask
+	st := step1(func() error {
+		task := &kapacitor.Task{ID: id, Pipeline: p, Type: kapacitor.StreamTask, DBRPs: dbrps}
+		var err error
+		et, err = t.TM.StartTask(task)
+		return err
+	})
+	if st != 'o' {
+		t.TM.StopTask(oid)
+		other.Wait()
+		t.Rec.Reset()
+		return "o " + string(st) + " 0 0/0"
+	}
+	sent := 0
+	for i := 0; i < 5; i++ {
+		pt, err := imodels.NewPoint("m", imodels.NewTags(map[string]string{"host": "a"}),
+			imodels.Fields{"v": int64(i + 1), "s": "abc", "f": 1.5, "b": true}, time.Unix(int64(i+1), 0).UTC())
+		if err == nil {
+			t.TM.WritePoints("db", "rp", imodels.ConsistencyLevelAll, []imodels.Point{pt})
+			sent++
+			time.Sleep(time.Millisecond)
+		}
+	}
+	seen := func() int {
+		n := 0
+		for _, k := range t.Rec.Keys() {
+			if strings.HasPrefix(k, oid+"/") {
+				n += len(t.Rec.Get(k))
+			}
+		}
+		return n
+	}
+	deadline := time.Now().Add(10 * time.Second)
+	for time.Now().Before(deadline) && seen() < sent {
+		time.Sleep(2 * time.Millisecond)
+	}
+	time.Sleep(5 * time.Millisecond)
+	taskErr := 0
+	waitErr := make(chan error, 1)
+	go func() {
+		t.TM.StopTask(id)
+		waitErr <- et.Wait()
+	}()
+	select {
+	case err := <-waitErr:
+		if err != nil {
+			taskErr = 1
+		}
+	case <-time.After(12 * time.Second):
+		return "X hang"
+	}
+	t.TM.StopTask(oid)
+	other.Wait()
+	res := fmt.Sprintf("o o %d %d/%d", taskErr, seen(), sent)
+	t.Rec.Reset()
+	return res
 }
